@@ -7,16 +7,18 @@ import (
 )
 
 type Opts struct {
-	Branch    *model.Branch `json:"branch,omitempty"`
-	Encode    string        `json:"encode,omitempty"` // "", json, yaml, toml
-	DryRun    bool          `json:"dryrun,omitempty"`
-	Exts      []string      `json:"exts,omitempty"`
-	HasExts   bool          `json:"hasExts,omitempty"` // pass WithFileExtensions even if Exts is empty
-	Strict    bool          `json:"strict,omitempty"`
-	Massive   bool          `json:"massive,omitempty"`
-	NilCtx    bool          `json:"nilCtx,omitempty"` // WithMassive(nil)
-	NoIter    bool          `json:"noIter,omitempty"`
-	TargetOpt string        `json:"targetOpt,omitempty"` // how the target dir is spelled: "" abs, "rel", "slash", "default" (cwd, no option)
+	Branch          *model.Branch `json:"branch,omitempty"`
+	Encode          string        `json:"encode,omitempty"` // "", json, yaml, toml
+	DryRun          bool          `json:"dryrun,omitempty"`
+	Exts            []string      `json:"exts,omitempty"`
+	HasExts         bool          `json:"hasExts,omitempty"` // pass WithFileExtensions even if Exts is empty
+	Strict          bool          `json:"strict,omitempty"`
+	Massive         bool          `json:"massive,omitempty"`
+	NilCtx          bool          `json:"nilCtx,omitempty"` // WithMassive(nil)
+	NoIter          bool          `json:"noIter,omitempty"`
+	TargetOpt       string        `json:"targetOpt,omitempty"`       // how the target dir is spelled: "" abs, "rel", "slash", "default" (cwd, no option), "raw"
+	TargetRaw       string        `json:"targetRaw,omitempty"`       // with TargetOpt "raw": cwd is the jail's target and this string is passed to WithTargetDir
+	PassEmptyTarget bool          `json:"passEmptyTarget,omitempty"` // pass WithTargetDir("") like the command line does when the flag is absent
 }
 
 // AddStep is one Add call of a From-Root build program: node[i+1] = node[P].Add(N); node[0] is the root.
@@ -58,8 +60,8 @@ type Cancel struct {
 }
 
 type HookAct struct {
-	Action string `json:"a"` // gosched | sleep
-	N      int    `json:"n"` // yields or microseconds
+	Action string `json:"a"`               // gosched | sleep
+	N      int    `json:"n"`               // yields or microseconds
 	First  int    `json:"first,omitempty"` // >0: only the first First arrivals at the point are perturbed
 }
 
@@ -73,19 +75,19 @@ type Sched struct {
 }
 
 type Case struct {
-	Op     string     `json:"op"`    // output | walk | walkiter | mkdir | verify
-	Entry  string     `json:"entry"` // md | root | alias (deprecated name of the same family)
-	Doc    []byte     `json:"doc,omitempty"`
-	Root   *string    `json:"root,omitempty"` // root name for From-Root entries (nil = pass a nil node)
-	Prog   []AddStep  `json:"prog,omitempty"`
-	UseSub int        `json:"useSub,omitempty"` // >0: pass node[UseSub] (a non-root) instead of the root
-	Opts   Opts       `json:"opts"`
-	FS     *FSSpec    `json:"fs,omitempty"`
-	Faults Faults     `json:"faults"`
-	Cancel Cancel     `json:"cancel"`
-	Sched  Sched      `json:"sched"`
-	Leak   bool       `json:"leak,omitempty"` // run the goroutine-leak scan after return
-	Twice  bool       `json:"twice,omitempty"`
+	Op     string    `json:"op"`    // output | walk | walkiter | mkdir | verify
+	Entry  string    `json:"entry"` // md | root | alias (deprecated name of the same family)
+	Doc    []byte    `json:"doc,omitempty"`
+	Root   *string   `json:"root,omitempty"` // root name for From-Root entries (nil = pass a nil node)
+	Prog   []AddStep `json:"prog,omitempty"`
+	UseSub int       `json:"useSub,omitempty"` // >0: pass node[UseSub] (a non-root) instead of the root
+	Opts   Opts      `json:"opts"`
+	FS     *FSSpec   `json:"fs,omitempty"`
+	Faults Faults    `json:"faults"`
+	Cancel Cancel    `json:"cancel"`
+	Sched  Sched     `json:"sched"`
+	Leak   bool      `json:"leak,omitempty"` // run the goroutine-leak scan after return
+	Twice  bool      `json:"twice,omitempty"`
 }
 
 func NewCase(op, entry string) Case {
